@@ -392,7 +392,7 @@ class Grammar:
                         else:
                             add(k)
 
-        return extract_grammar(considered_subtypes, self.starting_symbol)
+        return extract_grammar(considered_subtypes, self.starting_symbol, self.expansion_depthing)
 
     def get_grammar_properties_summary(self) -> GrammarSummary:
         """Returns a summary of grammar properties:
